@@ -19,7 +19,7 @@ from tfv.props import c01, c02, c15, c18
 ID = "C16"
 LEVEL = "exploration"
 WORKERS = {"quick": 8, "thorough": 16}
-CASES = {"quick": 200, "thorough": 4000}  # state-machine runs (histories)
+CASES = {"quick": 170, "thorough": 4000}  # state-machine runs (histories)
 STEPS = {"quick": 30, "thorough": 60}
 BUDGET = {"quick": 50, "thorough": 560}
 RULE = (
@@ -28,7 +28,9 @@ RULE = (
     "6-10 requests (valid, invalid by mutation, syntactically broken, failing by injected fault, same text with other variables / "
     "operation names, str and bytes spellings of one text); each rule application sends one pool request to every engine. Invariant after "
     "every step: all five responses equal the response of a freshly cooked engine with query_cache_decorator=None (re-cooked at every step "
-    "in the thorough tier; once per distinct request in the quick tier). Distinct = SHA-1 of (pool, history prefix); non-trivial = the "
+    "in the thorough tier; once per distinct request in the quick tier; the str and bytes spellings of one text are one request). For every "
+    "invalid document, and for every request of a quarter of the histories (all in the thorough tier), the reference is instead a fresh "
+    "cache-less engine in a process that never served anything (forked from a zygote, tfv/pristine.py). Distinct = SHA-1 of (pool, history prefix); non-trivial = the "
     "step re-sends a request whose text was evicted from a small cache since its last use, or re-sends an invalid/broken document."
 )
 ASSUMPTIONS = ["quick tier: the oracle is the first answer of one cache-less engine per history, memoised per distinct request; thorough re-cooks a fresh cache-less engine at every step"]
